@@ -14,7 +14,7 @@ ASSUME = [
 
 RULE = ("word: random walks (5-60 steps) of reader (acquire, pread, release) and retirer (set bit, check, mark, recheck, reuse) protocol steps on the real Record::extent_state through the hook accessors, "
         "the word (reader count, retired bit) and every acquire / check outcome compared with the Lean Pin automaton after each step; "
-        "race: a persistent store of 30-44 blocks (cache on/off, 1-3 block values), the victim key durable and not resident, one reader (get, get_bytes, compare_and_swap) parked by the scheduling hook either before taking its pin or holding it, "
+        "race: a persistent store of 30-44 blocks (cache on/off, 1-3 block values), the victim key durable and not resident, one reader (get, get_bytes, compare_and_swap) parked by the scheduling hook either before taking its pin or holding it (in a quarter of the cases on a deferred TTL-only generation made by update_ttl, whose bytes live in the predecessor's extent, with a flush publishing it meanwhile), "
         "while the key is updated or deleted, filler keys written, the flusher retires and reuses blocks; checked: no device write lands in a pinned extent (I/O observer), the retirement is actually postponed by the pin (hook event), "
         "the read returns the old value, the new value, not-found after a delete or StaleExtent - nothing else, every other key is intact, flush() terminates. Distinct = SHA-1 of (line, answer).")
 
